@@ -10,6 +10,7 @@ package c15
 import (
 	"encoding/json"
 	"fmt"
+	"strings"
 	"sync"
 	"sync/atomic"
 
@@ -614,6 +615,36 @@ func RunDecode(r *chk.Run) {
 			return true
 		}
 		return r.TooMany()
+	}
+	// ---- name walk: every name length 0..255 (a single length byte, also for
+	// 251..254 which a length-encoded integer would read as a prefix) ----------
+	{
+		var e int64
+		for n := 0; n <= 255; n++ {
+			for _, which := range []int{0, 1, 2} {
+				t := ref.Table{Flags: 1, DB: "d", Name: "t", Cols: []ref.Column{ref.ColInt(ref.TLong, "a", false), ref.ColVarchar("b", 300)}}
+				switch which {
+				case 0:
+					t.DB = MakeName(n, rot)
+				case 1:
+					t.Name = MakeName(n, rot+3)
+				default:
+					t.DB, t.Name = MakeName(n, rot+1), MakeName(n, rot+5)
+				}
+				// names made of the bytes a length-encoded integer treats as markers
+				if n > 0 && which == 2 {
+					t.Name = strings.Repeat(string([]byte{0x7f}), n)
+				}
+				for _, fl := range flavors {
+					for _, cs := range checksums {
+						t.ID = ids[0].id
+						one(&e, fl, ids[0], cs, &t)
+					}
+				}
+			}
+		}
+		evals.Add(e)
+		r.Set("decode_name_walk", "db name, table name and both at every length 0..255 x flavors x checksum")
 	}
 	// ---- tail product ---------------------------------------------------------
 	r.Parallel(func(shard, nshards int) {
